@@ -1,7 +1,8 @@
 (* Props/C08.v -- compact output is the unique minimal serialisation.  Statements only.
    Reference serializer: Spec/Minimal.ser_min. *)
 From JsonSyntax Require Import Base.Prelude Base.Value Model.Printer Spec.Minimal
-  Proofs.PrinterProofs Proofs.PrinterTheorems.
+  Proofs.PrinterProofs Proofs.PrinterTheorems
+  Base.ConstSyntax Generated.Consts Proofs.ConstsTie.
 
 Theorem C08_compact_is_minimal : forall v, print_with compact v = Some (ser_min v).
 Proof. exact C08_compact_minimal. Qed.
@@ -23,9 +24,36 @@ Example C08_escapes :
   esc_min 0x2F = [0x2F] /\ esc_min 0x7F = [0x7F] /\ esc_min 0x2028 = [0x2028] /\ esc_min 0x1F600 = [0x1F600].
 Proof. vm_compute. repeat split. Qed.
 
+
+(* ---- static tie of the constant tables (DESIGN.md section 4, "Translator tie for constant tables"):
+   `src_..` (Generated/Consts.v) is what lib/const_translate.py evaluates the named function / constant of
+   the Rust source to -- regenerated from the tree under check at the start of every `bin/check` of this
+   property --, the right-hand side is the same data computed from the model's own function
+   (Base/ConstSyntax.v: set_of = the maximal runs of domain points where a predicate holds) ---- *)
+Theorem C08_escapes_from_source :
+  src_string_literal =
+    (exceptions_of (list_eqb N.eqb) (fun c => Printer.string_literal [c]) (fun c => [0x22; c; 0x22]) char_domain,
+     table_of Printer.string_literal string_samples)
+  /\ (forall c, Printer.string_literal [c] = 0x22 :: escape_char c ++ [0x22])
+  /\ (forall c, 256 <= c -> escape_char c = [c]).
+Proof. exact ConstsTie.escapes_from_source. Qed.
+Theorem C08_string_size_from_source :
+  src_printed_string_size =
+    (exceptions_of N.eqb (fun c => Printer.printed_string_size [c]) (fun _ => 3) char_domain,
+     table_of Printer.printed_string_size string_samples)
+  /\ (forall c, Printer.printed_string_size [c] = 2 + char_width c)
+  /\ (forall c, 256 <= c -> char_width c = 1).
+Proof. exact ConstsTie.string_size_from_source. Qed.
+Theorem C08_digit_from_source :
+  src_digit = table_of Printer.hex_digit_char nibble_domain.
+Proof. exact ConstsTie.digit_from_source. Qed.
+
 Print Assumptions C08_compact_is_minimal.
 Print Assumptions C08_to_string.
 Print Assumptions C08_compact_print.
 Print Assumptions C08_string_escaping.
 Print Assumptions C08_escape_char.
 Print Assumptions C08_escapes.
+Print Assumptions C08_escapes_from_source.
+Print Assumptions C08_string_size_from_source.
+Print Assumptions C08_digit_from_source.
